@@ -222,6 +222,7 @@ inductive HashSiteKind where
   | call        -- a call of `hash_one` (or of hand-rolled hashing)
   | use         -- the hash argument of `from_hash`
   | rehash      -- the closure handed to the table for re-hashing an entry when it is resized
+  | probeEq     -- the equality closure of a table probe (`shape` = whole-string comparison)
   deriving DecidableEq, Repr, Inhabited
 
 inductive HashShape where
@@ -396,6 +397,33 @@ structure CapBuilder where
 structure LimBuilder where
   name : BuilderName
   max : CVal
+  deriving DecidableEq, Repr, Inhabited
+
+/-! ### The deserialisers as effect sequences -/
+
+/-- What a key check inside a deserialiser is applied to. -/
+inductive KArg where
+  | loopIndex        -- the position of the entry in the list (`enumerate()`)
+  | lenMinusOne      -- the last position (`len.checked_sub(1)`)
+  | len              -- the number of entries (one past the last position)
+  | other
+  deriving DecidableEq, Repr, Inhabited
+
+inductive DEffect where
+  | readList                 -- `Vec::<String>::deserialize(d)?`
+  | readMap                  -- `HashMap::<String, K>::deserialize(d)?`
+  | presizeExact             -- a container created with capacity = number of entries read
+  | arenaUnlimited           -- `Arena::new(bytes, usize::MAX)`
+  | loopBegin | loopEnd      -- `for .. in <entries>`
+  | store | expectStored     -- `arena.store_str(..)` and the `.expect(..)` on its result
+  | hashOne | probe          -- `hash_one(..)`, `raw_entry_mut().from_hash(..)`
+  | keyCheck (arg : KArg)    -- `K::try_from_usize(arg)`
+  | reject                   -- `return Err(..)` / `.ok_or_else(..)?`
+  | stringsPush | tableInsert
+  | counterMax               -- `if key >= next { next = key + 1 }`
+  | mapInsert | stringsInsert
+  | finalCheck               -- `strings.len() != map.len() || next != strings.len()`
+  | other (text : String)
   deriving DecidableEq, Repr, Inhabited
 
 end Lasso.Source
